@@ -26,3 +26,8 @@ class OpaqueA(_Opaque):
 
 class OpaqueB(_Opaque):
     __slots__ = ()
+
+
+class OpaqueSub(OpaqueA):
+    """a subclass of OpaqueA: another kind all the same (kinds are exact types; only the documented ladders widen)"""
+    __slots__ = ()
